@@ -1,6 +1,7 @@
 // C18: rows written through the schema-2.x table API read back as written (track_table, playlist_table, playlist_entity_table).
 #include "common/bigalloc.hpp"
 #include "common/codec_values.hpp"
+#include "common/sqlite_shim.hpp"
 
 #include <djinterop/engine/v2/engine_library.hpp>
 #include <djinterop/exceptions.hpp>
@@ -601,9 +602,113 @@ static void prop_c18_lists(const vf::Case& c, Ctx& ctx)
     ctx.nontrivial = nt || lists.size() >= 2;
 }
 
+// ---------------------------------------------------------------------------------------------- C16 at table level
+// every observing operation of the 2.x table API, applied twice: no modifying statement, no change counter movement, same answers
+static void prop_c16_table(const vf::Case& c, Ctx& ctx)
+{
+    S h(c[0]);
+    auto schema = e::supported_v2_schemas[h.below(e::supported_v2_schemas.size())];
+    ctx.label("schema=" + e::to_string(schema));
+    auto lib = v2::engine_library::create_temporary(schema);
+    tt t = lib.track();
+    auto pt = lib.playlist();
+    auto et = lib.playlist_entity();
+    std::string uuid = lib.information().get().uuid;
+    Distinct d;
+    std::vector<int64_t> tids, lids;
+    size_t nrows = 1 + h.below(3);
+    for (size_t i = 0; i < nrows; ++i)
+    {
+        S s(c.size() > 1 + i ? c[1 + i] : S::empty());
+        tids.push_back(t.add(gen_row(s, ctx, d, static_cast<int>(i + 1))));
+    }
+    size_t nlists = 1 + h.below(4);
+    for (size_t i = 0; i < nlists; ++i)
+    {
+        int64_t parent = (i > 0 && h.coin()) ? lids[h.below(lids.size())] : 0;
+        lids.push_back(pt.add(v2::playlist_row{0, "L" + std::to_string(i), parent, true, 0, g_time(h), true}));
+        for (auto tid : tids)
+            if (h.coin())
+                et.add_back(v2::playlist_entity_row{0, lids.back(), tid, uuid, 0, 0});
+    }
+    auto observe_all = [&]() {
+        std::string o;
+        auto ids = t.all_ids();
+        std::sort(ids.begin(), ids.end());
+        for (auto id : ids)
+        {
+            auto row = t.get(id);
+            o += "track " + std::to_string(id) + " exists=" + r(t.exists(id)) + ":";
+            for (auto& col : columns())
+            {
+                if (!has_col(schema, col))
+                    continue;
+                o += std::string(" ") + col.name + "=" + col.get(t, id).substr(0, 40) + "|" + col.of(*row).substr(0, 40);
+            }
+            o += " by-path=" + r(t.find_id_by_path(row->path)) + "\n";
+        }
+        o += "missing: " + r(t.exists(98765)) + r(t.get(98765).has_value()) + r(t.find_id_by_path("no/such/path").has_value()) + "\n";
+        auto pl = pt.all_ids();
+        std::sort(pl.begin(), pl.end());
+        for (auto id : pl)
+        {
+            auto row = pt.get(id);
+            o += "list " + std::to_string(id) + " " + r(*row) + " exists=" + r(pt.exists(id)) + " children=";
+            for (auto x : pt.child_ids(id))
+                o += std::to_string(x) + ",";
+            o += " desc=";
+            auto ds = pt.descendant_ids(id);
+            std::sort(ds.begin(), ds.end());
+            for (auto x : ds)
+                o += std::to_string(x) + ",";
+            o += " find=" + r(pt.find_id(row->parent_list_id, row->title)) + " ids=" + std::to_string(pt.find_ids(row->title).size()) + " tracks=";
+            for (auto x : et.track_ids(id))
+                o += std::to_string(x) + ",";
+            for (auto& er : et.get_for_list(id))
+                o += "(" + std::to_string(er.id) + ":" + std::to_string(er.track_id) + ":" + std::to_string(er.next_entity_id) + ")";
+            for (auto tid : tids)
+                o += et.get(id, tid) ? "m" : "-";
+            o += "\n";
+        }
+        o += "roots=";
+        for (auto x : pt.root_ids())
+            o += std::to_string(x) + ",";
+        o += " find_root=" + r(pt.find_root_id("L0")) + " info=" + lib.information().get().uuid.substr(0, 4) + "\n";
+        lib.verify();
+        return o;
+    };
+    auto& sh = vfshim::state();
+    sh.record_sql = true;
+    vfshim::reset_counters();
+    std::string o1 = observe_all();
+    sqlite3* conn = sh.last_db;
+    int ch0 = conn ? sqlite3_total_changes(conn) : 0;
+    std::string o2 = observe_all();
+    uint64_t writes = sh.write_steps;
+    std::string first = sh.write_sql.empty() ? "" : sh.write_sql[0];
+    sh.record_sql = false;
+    int ch1 = conn ? sqlite3_total_changes(conn) : 0;
+    ctx.describe = "schema " + e::to_string(schema) + " " + std::to_string(nrows) + " track rows, " + std::to_string(nlists) + " playlists";
+    ctx.key = ctx.describe + o1.substr(0, 200);
+    ctx.nontrivial = nlists >= 2;
+    VF_CHECK(writes == 0, ctx.describe << ": observing through the table API executed " << writes << " modifying statement(s), first: " << first.substr(0, 200));
+    VF_CHECK(ch0 == ch1, ctx.describe << ": sqlite3_total_changes moved during observation");
+    VF_CHECK(o1 == o2, ctx.describe << ": repeated observation through the table API gives a different answer");
+}
+
 int main(int argc, char** argv)
 {
     std::vector<vf::PropSpec> specs;
+    {
+        vf::PropSpec p;
+        p.id = "C16.table";
+        p.fn = prop_c16_table;
+        p.rec_min = 4;
+        p.rec_max = 4;
+        p.rec_len = 900;
+        p.watchdog_s = 60;
+        specs.push_back(p);
+    }
     {
         vf::PropSpec p;
         p.id = "C18";
